@@ -39,7 +39,7 @@ func perIterationCell(c *Ctx, v ssa.Value) (ok bool, isCell bool, cell *ssa.Allo
 
 // statusOK: v is "OK" on the nil edge and the Status field of the returned error otherwise: origins are the constant "OK" and loads of ConnectionError.Status.
 func statusOK(c *Ctx, v ssa.Value) (bool, []ssa.Value) {
-	return c.P.AllFrom(v, eng.Plain, func(x ssa.Value) bool {
+	return c.P.AllFrom(v, deepF, func(x ssa.Value) bool {
 		if s, ok := eng.ConstString(x); ok {
 			return s == "OK"
 		}
@@ -51,11 +51,7 @@ func statusOK(c *Ctx, v ssa.Value) (bool, []ssa.Value) {
 // C16.ENTRY
 func ruleEntry(c *Ctx, a *udpAnchors) {
 	p := c.P
-	add := p.Fn("(*service.natmap).Add")
-	if add == nil {
-		c.Undecided("ENTRY", "anchor:natmap.Add", "-", "natmap.Add not found")
-		return
-	}
+	add := a.m.add
 	isAddEntry := func(ins ssa.Instruction) bool {
 		cl, ok := ins.(*ssa.Call)
 		return ok && eng.MethodName(&cl.Call) == "AddUDPNatEntry"
@@ -67,31 +63,46 @@ func ruleEntry(c *Ctx, a *udpAnchors) {
 		if !ok || eng.MethodName(&call.Call) != "AddUDPNatEntry" {
 			continue
 		}
-		okA, _ := p.AllFrom(eng.Arg(&call.Call, 0), eng.Plain, func(v ssa.Value) bool { return eng.IsParam(v, add, 1) })
-		okK, _ := p.AllFrom(eng.Arg(&call.Call, 1), eng.Plain, func(v ssa.Value) bool { return eng.IsParam(v, add, 5) })
+		okA, _ := p.AllFrom(eng.Arg(&call.Call, 0), eng.Plain, func(v ssa.Value) bool {
+			pa, isP := v.(*ssa.Parameter)
+			return isP && pa.Parent() == add && pa.Type().String() == "net.Addr"
+		})
+		okK, _ := p.AllFrom(eng.Arg(&call.Call, 1), eng.Plain, func(v ssa.Value) bool {
+			pa, isP := v.(*ssa.Parameter)
+			return isP && pa.Parent() == add && pa.Type().String() == "string"
+		})
 		c.CheckAt("ENTRY", short(add)+":entry-reported-with-client-address-and-key-id", call, okA && okK, "the association is reported with something other than Add's client address and key id parameters")
 		// the metrics object returned is the one stored in the entry and used for removal
 		for _, c2 := range eng.Calls(add) {
-			if sc, ok := c2.(*ssa.Call); ok && eng.CalleeName(&sc.Call) == "(*service.natmap).set" {
-				okM, _ := p.AllFrom(sc.Call.Args[4], eng.Plain, func(v ssa.Value) bool { return v == ssa.Value(call) })
+			if sc, ok := c2.(*ssa.Call); ok && callTo(c, sc, a.m.set) {
+				okM := false
+				for _, ar := range sc.Call.Args {
+					if g, _ := p.AllFrom(ar, eng.Plain, func(v ssa.Value) bool { return v == ssa.Value(call) }); g {
+						okM = true
+					}
+				}
 				c.CheckAt("ENTRY", short(add)+":entry-keeps-its-metrics-object", sc, okM, "the entry does not keep the metrics object returned for this association")
 			}
 		}
 	}
 	// at the call site the id is the id of this datagram's key search
 	for i, ad := range a.adds {
-		okID, _ := p.AllFrom(ad.Call.Args[5], eng.Plain, func(v ssa.Value) bool {
-			cc, idx, ok := eng.AsResult(v)
-			if !ok || idx != 1 {
-				return false
+		var idArg ssa.Value
+		for _, ar := range ad.Call.Args {
+			if ar.Type().String() == "string" {
+				idArg = ar
 			}
-			for _, s := range a.searchC {
-				if s == cc {
+		}
+		okID := false
+		if idArg != nil {
+			okID, _ = p.AllFrom(idArg, deepF, func(v ssa.Value) bool {
+				// the ID of the list element that decrypted this datagram, or the id result of a search call
+				if _, fl, _, ok := eng.FieldLoad(v); ok && fl == "ID" {
 					return true
 				}
-			}
-			return false
-		})
+				return inCalls(v, a.searchC, -1)
+			})
+		}
 		c.CheckAt("ENTRY", fmt.Sprintf("%s:add#%d:key-id-of-this-search", short(a.dg), i), ad, okID, "the association is attributed to an id other than the one returned by the key search that authenticated this datagram")
 	}
 	ruleTeardown(c, "ENTRY-REMOVAL")
@@ -132,7 +143,7 @@ func ruleClientReport(c *Ctx, a *udpAnchors) {
 	recv := eng.Receiver(&r.Call)
 	var assocCell *ssa.Alloc
 	for _, o := range p.Origins(recv, eng.OriginOpts{}) {
-		if t, fl, base, ok := eng.FieldLoad(o); ok && t == natconnT && fl == "metrics" {
+		if t, fl, base, ok := eng.FieldLoad(o); ok && t == a.m.connT && fl == a.m.metField {
 			if u, ok := base.(*ssa.UnOp); ok {
 				assocCell = eng.CellRoot(u.X)
 			}
@@ -152,13 +163,12 @@ func ruleClientReport(c *Ctx, a *udpAnchors) {
 		_ = ok
 		// the only stores: Get result and Add result
 		for _, st := range p.CellStores(assocCell) {
-			g, _ := p.AllFrom(st.Val, eng.Plain, func(v ssa.Value) bool {
-				cc, _, ok := eng.AsResult(v)
-				if !ok {
-					return false
+			g, _ := p.AllFrom(st.Val, deepF, func(v ssa.Value) bool {
+				if cst, isC := v.(*ssa.Const); isC && cst.IsNil() {
+					return true
 				}
-				n := eng.CalleeName(&cc.Call)
-				return n == "(*service.natmap).Get" || n == "(*service.natmap).Add"
+				cc, _, ok := eng.AsResult(v)
+				return ok && (callTo(c, cc, a.m.get) || callTo(c, cc, a.m.add))
 			})
 			c.CheckAt("CLIENT", key+":association-variable-from-Get-or-Add", st, g, "the association variable receives something other than the result of the table lookup or of Add")
 		}
@@ -177,7 +187,7 @@ func ruleClientReport(c *Ctx, a *udpAnchors) {
 			return false, true, []ssa.Value{arg}
 		}
 		fresh, _, _ := perIterationCell(c, conv.X)
-		g, bad := p.AllFrom(conv.X, eng.Plain, func(v ssa.Value) bool {
+		g, bad := p.AllFrom(conv.X, deepF, func(v ssa.Value) bool {
 			if n, ok := eng.ConstInt(v); ok && n == 0 {
 				return true
 			}
@@ -276,16 +286,15 @@ func ruleTargetReport(c *Ctx, a *udpAnchors) {
 		c.CheckAt("TARGET", key+":status-is-OK-or-error-status", r, okS, "the status reported is neither \"OK\" nor the Status of the returned error: "+valsStr(p, badS))
 		// sizes
 		var rd, wr *ssa.Call
-		for _, gg := range eng.Family(rf) {
-			for _, cl := range eng.Calls(gg) {
-				if call, ok := cl.(*ssa.Call); ok {
-					switch eng.CalleeName(&call.Call) {
-					case "(*service.natconn).ReadFrom":
-						rd = call
-					case "(net.PacketConn).WriteTo":
-						wr = call
-					}
-				}
+		for _, rs := range findReplySites(c, a) {
+			if rs.rf != rf {
+				continue
+			}
+			if len(rs.reads) > 0 {
+				rd = rs.reads[0]
+			}
+			if len(rs.writes) > 0 {
+				wr = rs.writes[0]
 			}
 		}
 		chk := func(arg ssa.Value, src *ssa.Call, what, why string) {
@@ -294,7 +303,7 @@ func ruleTargetReport(c *Ctx, a *udpAnchors) {
 			var bad []ssa.Value
 			if ok {
 				fresh, _, _ = perIterationCell(c, conv.X)
-				good, bad = p.AllFrom(conv.X, eng.Plain, func(v ssa.Value) bool {
+				good, bad = p.AllFrom(conv.X, deepF, func(v ssa.Value) bool {
 					if n, ok := eng.ConstInt(v); ok && n == 0 {
 						return true
 					}
